@@ -145,7 +145,7 @@ pub fn vtree_case(u: &mut Unstructured, max_k: u8) -> Result<VtreeCase> {
 }
 
 pub fn sop(u: &mut Unstructured, ite_family: bool) -> Result<SOp> {
-    Ok(match u.arbitrary::<u8>()? % if ite_family { 14 } else { 10 } {
+    Ok(match u.arbitrary::<u8>()? % if ite_family { 16 } else { 10 } {
         0 | 1 => SOp::Lit(u.arbitrary()?, u.arbitrary()?),
         2 => SOp::Const(u.arbitrary()?),
         3 => SOp::Not(u.arbitrary()?),
@@ -156,7 +156,9 @@ pub fn sop(u: &mut Unstructured, ite_family: bool) -> Result<SOp> {
         10 => SOp::Xor(u.arbitrary()?, u.arbitrary()?),
         11 => SOp::Iff(u.arbitrary()?, u.arbitrary()?),
         12 => SOp::Ite(u.arbitrary()?, u.arbitrary()?, u.arbitrary()?),
-        _ => SOp::Compose(u.arbitrary()?, u.arbitrary()?, u.arbitrary()?),
+        13 => SOp::Compose(u.arbitrary()?, u.arbitrary()?, u.arbitrary()?),
+        14 => SOp::AndDisjoint(u.arbitrary()?, u.arbitrary()?),
+        _ => SOp::OrDisjoint(u.arbitrary()?, u.arbitrary()?),
     })
 }
 
